@@ -50,11 +50,12 @@ func NewCache[K comparable, D any]() *Cache[K, D] {
 }
 
 func (c *Cache[K, D]) LoadOrStore(key K, e *Element[D]) (actual *Element[D], loaded bool) {
-	now := time.Now()
 	verifhook.Yield("cache.LoadOrStore.afterNow", 0)
 	c.ReplaceWithFunc(key, func(oldValue *Element[D], oldLoaded bool) (newValue *Element[D], deleteValue bool) {
 		if oldLoaded {
-			if !oldValue.IsExpired(now) {
+			// the clock is read under the lock: a time taken before waiting for the lock
+			// could make an entry that expired in the meantime look fresh.
+			if !oldValue.IsExpired(time.Now()) {
 				actual = oldValue
 				return oldValue, false
 			}
